@@ -168,16 +168,28 @@ pub fn run(args: &Args) -> Report {
                     tags = vec![vec!["e".into(), hex(&victim.sem.id)]];
                 }
             }
+            // an event of exactly the size of one that was just removed comes next (its space must not be handed out)
+            let mut same_size_as_removed: Option<std::rc::Rc<Ev>> = None;
             if k % 11 == 10 {
                 if let Some(victim) = events.get(k / 2) {
                     let _ = store.remove_event(Id::from_bytes(victim.sem.id));
                     rep.count("explicit_removals");
+                    let mut twin = victim.sem.clone();
+                    twin.id = rng.arr32();
+                    twin.kind = 1;
+                    twin.content = "y".repeat(twin.content.len());
+                    same_size_as_removed = Ev::new(twin);
                 }
             }
             if kind != 1 {
                 rep.count("stores_that_remove_an_earlier_event");
             }
-            let mut steps = vec![Step { ev: mk(&mut rng, author_n, kind, tags, k % 9), track: k % 4 == 0, remove_after: false }];
+            let mut steps = vec![];
+            if let Some(t) = same_size_as_removed {
+                steps.push(Step { ev: t, track: false, remove_after: false });
+                rep.count("stores_of_the_size_of_a_just_removed_event");
+            }
+            steps.push(Step { ev: mk(&mut rng, author_n, kind, tags, k % 9), track: k % 4 == 0, remove_after: false });
             // one event larger than two growth steps of the backing file early in the history (the map grows by
             // several steps at once), referenced, with ordinary growth steps following it
             if k == 6 && (debug || i % 3 == 1) {
@@ -191,14 +203,14 @@ pub fn run(args: &Args) -> Report {
                 3 => {
                     let (tk, tt): (u16, Vec<Vec<String>>) = if k % 20 == 3 { (10007, vec![]) } else { (30077, vec![vec!["d".into(), "tail".into()]]) };
                     steps.push(Step { ev: mk(&mut rng, 3, tk, tt.clone(), 1), track: true, remove_after: false });
-                    steps.push(Step { ev: mk(&mut rng, 3, tk, tt, 2), track: false, remove_after: false });
+                    steps.push(Step { ev: mk(&mut rng, 3, tk, tt, 1), track: false, remove_after: false }); // same size as the one it replaces
                     steps.push(Step { ev: mk(&mut rng, 4, 1, vec![], 3), track: false, remove_after: false });
                     rep.count("tail_replacements_of_a_referenced_event");
                 }
                 // referenced event is the newest in the map when it is removed explicitly; then appends follow
                 7 => {
                     steps.push(Step { ev: mk(&mut rng, 4, 1, vec![], 4), track: true, remove_after: true });
-                    steps.push(Step { ev: mk(&mut rng, 4, 1, vec![], 5), track: false, remove_after: false });
+                    steps.push(Step { ev: mk(&mut rng, 4, 1, vec![], 4), track: false, remove_after: false }); // same size as the removed one
                     rep.count("tail_removals_of_a_referenced_event");
                 }
                 _ => {}
